@@ -76,6 +76,9 @@ FilterForms ==
                             st \in {<<>>, <<Step("parent", T_node)>>, <<DoS, Step("child", T_any)>>, <<StepP("child", T_any, <<N(1)>>)>>}}
    \cup {Filter(pr, <<p, q>>, <<>>) : pr \in {AllB, AncAll}, p \in Seq2Set(TwoPredPool), q \in Seq2Set(TwoPredPool)}
    \cup {Filter(Bin("union", AllB, AncAll), <<p>>, <<Step("child", T_any)>>) : p \in {N(1), N(2), LastE}}
+   \* a filter expression WITHOUT predicate hands its operand on as it is (a reverse axis: nearest first) - the continuation is still the
+   \* union over all its nodes: (ancestor-or-self::node())//*, (preceding::*)/descendant::*
+   \cup {Filter(pr, <<>>, st) : pr \in {AncAll, PrecAll}, st \in {<<DoS, Step("child", T_any)>>, <<Step("descendant", T_any)>>, <<DoS, StepP("child", T_any, <<N(1)>>)>>}}
 
 \* the classic: //b[1] is /descendant-or-self::node()/child::b[1] (first b of every parent), not (//b)[1]
 Classic == { Abs(<<DoS, StepP("child", T_name("", <<"b">>), <<p>>)>>) : p \in {N(1), N(2), LastE, Bin("eq", PosE, LastE)} }
@@ -83,7 +86,11 @@ Classic == { Abs(<<DoS, StepP("child", T_name("", <<"b">>), <<p>>)>>) : p \in {N
            \cup { Abs(<<DoS, StepP("child", T_any, <<N(1)>>), StepP("child", T_any, <<LastE>>)>>),
                   Abs(<<DoS, StepP("child", T_name("", <<"b">>), <<Rel(<<StepP("preceding-sibling", T_any, <<N(1)>>)>>)>>)>>),
                   Abs(<<DoS, StepP("child", T_any, <<Bin("eq", CountE(Rel(<<StepP("following-sibling", T_any, <<LastE>>)>>)), N(1))>>)>>),
-                  Abs(<<DoS, StepP("attribute", T_any, <<N(1)>>)>>), Abs(<<DoS, StepP("child", T_text, <<N(1)>>)>>) }
+                  Abs(<<DoS, StepP("attribute", T_any, <<N(1)>>)>>), Abs(<<DoS, StepP("child", T_text, <<N(1)>>)>>),
+                  \* a position no list can have: 2^64 selects nothing (and is no error)
+                  Abs(<<DoS, StepP("child", T_any, <<NumE(Pow2(1, 64))>>)>>), Filter(AllB, <<NumE(Pow2(1, 64))>>, <<>>),
+                  \* a later predicate still applies after a literal position: *[1][@x], *[2][b]
+                  Abs(<<DoS, StepP("child", T_any, <<N(1), AttrX>>)>>), Abs(<<DoS, StepP("child", T_any, <<N(2), ChildB>>)>>) }
 \* a//b[p]: the step after a mid-path "//" numbers per parent, too (it is NOT a/descendant::b[p])
 MidSlash == { Abs(<<Step("child", T_any), DoS, StepP("child", t, <<p>>)>>) : t \in {T_any, T_name("", <<"b">>)}, p \in {N(1), N(2), LastE, Bin("eq", PosE, LastE), Bin("gt", PosE, N(1))} }
             \cup { Rel(<<Self, DoS, StepP("child", T_any, <<p>>)>>) : p \in {N(1), LastE} }
